@@ -9,6 +9,7 @@ use serde_yaml;
 
 use super::traits::{ConvertResult, Converter, ImportResult, Importer};
 use crate::build::Val;
+use crate::error::{BuildError, ErrorType};
 
 pub struct YamlConverter {}
 
@@ -126,6 +127,14 @@ impl YamlConverter {
             serde_yaml::Value::Number(n) => {
                 if let Some(i) = n.as_i64() {
                     Val::Int(i)
+                } else if n.is_u64() {
+                    // An integer above i64::MAX. Turning it into a float would silently
+                    // change its value so we refuse it instead.
+                    return Err(BuildError::new(
+                        format!("Integer {} does not fit in a 64 bit signed integer", n),
+                        ErrorType::IncludeError,
+                    )
+                    .to_boxed());
                 } else {
                     Val::Float(n.as_f64().expect("Number was not an int or a float!!"))
                 }
